@@ -37,6 +37,7 @@ type flowParams struct {
 	Restart  bool     `json:"restart"` // start the pipeline again after the stop completed
 	Retries  int      `json:"max_retries"`
 	Procs    []procParam `json:"procs"`
+	GateDestOpen bool    `json:"gate_dest_open"` // destination Open calls are pending events with answers {ok, err}
 }
 
 // procParam describes one scripted processor of the scenario.
@@ -64,6 +65,9 @@ func (p flowParams) name() string {
 	}
 	if p.Restart {
 		n += "/restart"
+	}
+	if p.GateDestOpen {
+		n += "/destopen"
 	}
 	if p.Bundle > 0 {
 		n += fmt.Sprintf("/bundle%d", p.Bundle)
@@ -94,7 +98,7 @@ func (p flowParams) topology() stack.Topology {
 		t.Sources = append(t.Sources, fakes.SourceScript{Name: fmt.Sprintf("s%d", s), Batches: batches, ReadMenu: p.ReadMenu})
 	}
 	for d := 0; d < p.Dests; d++ {
-		t.Dests = append(t.Dests, fakes.DestScript{Name: fmt.Sprintf("d%d", d), AckMenu: p.AckMenu})
+		t.Dests = append(t.Dests, fakes.DestScript{Name: fmt.Sprintf("d%d", d), AckMenu: p.AckMenu, GateOpen: p.GateDestOpen, Faults: p.GateDestOpen})
 	}
 	dlqMenu := p.DLQMenu
 	if len(dlqMenu) == 0 {
@@ -275,6 +279,16 @@ func runFlow(t *testing.T, rep *verifkit.Report, p flowParams, bound int, deadli
 	e.Explore()
 }
 
+var leaks int
+
+func firstLines(s string, n int) string {
+	l := strings.Split(s, "\n")
+	if len(l) > n {
+		l = l[:n]
+	}
+	return strings.Join(l, "\n")
+}
+
 func TestVerifFlow(t *testing.T) {
 	prop := os.Getenv("VERIF_PROPERTY")
 	rep := verifkit.NewReport(prop, "flow")
@@ -293,11 +307,21 @@ func TestVerifFlow(t *testing.T) {
 	deadline := verifkit.Deadline(150*time.Second, 25*time.Minute)
 	defer func() { rep.Extra("restart_runs_on_distinct_crash_images", restartRuns) }()
 	for _, sc := range list {
+		if only := os.Getenv("VERIF_ONLY"); only != "" && !strings.Contains(sc.p.name(), only) {
+			continue
+		}
 		scn := flowScenario(sc.p)
 		inner := scn.Check
 		params := sc.p
 		scn.Check = func(x *verifkit.Exec) []verifkit.Violation {
 			vs := inner(x)
+			if x.Obs["leak"] != nil {
+				leaks++
+				rep.Extra("executions_with_goroutines_outliving_the_run", leaks)
+				if leaks == 1 {
+					rep.Extra("first_leak_stack", firstLines(x.Obs["leak"].(string), 12))
+				}
+			}
 			if prop == "C03" {
 				vs = append(vs, checkRestarts(t, rep, params, x)...)
 			}
